@@ -1781,6 +1781,99 @@ def d5_19(ctx):
         ctx.check(not diffs, key, gdt, "five requests over three instances (two sharing a structure handle): each its own definition, uploaded once, registered by name", f"_get_data_type: {diffs[:2]}")
 
 
+# ---------------------------------------------------------------------------------------------------------------- identity objects
+def _identity_rule(ctx):
+    """The identity structures folded end to end on witness identities (the real codecs of every member are interpreted: the
+    structure classes, their named members, Revision, the status bytes, the short string; only the IPv4 address class of the
+    standard library is a marker): the bytes an independent packing of the Identity object / ListIdentity item layout gives decode
+    to exactly the vendor and product-type names (UNKNOWN for ids outside the tables), product code, major / minor revision 0..255,
+    the two status bytes, the serial as 8 hex digits, the product name (Latin-1, length 0..n), and for ListIdentity the
+    encapsulation version, IPv4 address and state; every byte of the item is consumed and nothing behind it; encoding a decoded
+    identity gives the bytes back."""
+    import ipaddress as _ip
+    import struct as _st
+
+    from ..miniinterp import Stream, fold_method
+
+    CT = "pycomm3.custom_types"
+    mio, lio = ctx.model.cls(f"{CT}:ModuleIdentityObject"), ctx.model.cls(f"{CT}:ListIdentityObject")
+    vendors = ctx.folder.module_value("pycomm3.cip.status_info", "VENDORS")
+    ptypes = ctx.folder.module_value("pycomm3.cip.status_info", "PRODUCT_TYPES")
+    if not (isinstance(vendors, dict) and isinstance(ptypes, dict)):
+        ctx.undecided(ckey(mio.key, "witness"), mio.node, "VENDORS / PRODUCT_TYPES are not constant tables")
+        return
+
+    def ip_hook(call, env, it):
+        path = attr_path(call.func) or ""
+        if path in ("ipaddress.IPv4Address", "IPv4Address", "ipaddress.ip_address", "ip_address"):
+            v = it.ev(call.args[0], env)
+            try:
+                a = _ip.IPv4Address(bytes(v) if isinstance(v, (bytes, bytearray)) else v)
+            except (ValueError, TypeError):
+                raise _Raise("ValueError")
+            return Obj(kind="ipv4", exploded=a.exploded, compressed=a.compressed, packed=a.packed, _text=str(a))
+        if (call_name(call) or "") == "str" and len(call.args) == 1:
+            v = it.ev(call.args[0], env)
+            if isinstance(v, Obj) and v.__dict__.get("kind") == "ipv4":
+                return v._text
+        if path in ("socket.inet_ntoa", "inet_ntoa"):
+            return str(_ip.IPv4Address(bytes(it.ev(call.args[0], env))))
+        if path in ("socket.inet_aton", "inet_aton"):
+            return _ip.IPv4Address(it.ev(call.args[0], env)).packed
+        return UNKNOWN
+
+    unknown_v = next(i for i in range(0xFFFE, 0, -1) if i not in vendors)
+    unknown_p = next(i for i in range(0xFFFE, 0, -1) if i not in ptypes)
+    known_v = [i for i in sorted(k for k in vendors if isinstance(k, int)) if i > 0][:1] + [max(k for k in vendors if isinstance(k, int))]
+    known_p = [i for i in sorted(k for k in ptypes if isinstance(k, int)) if i > 0][:1] + [max(k for k in ptypes if isinstance(k, int))]
+    idents = [
+        ("typical", known_v[0], known_p[0], 55, 20, 11, b"\x30\x60", 0x00C0FFEE, "1756-L61/B LOGIX5561"),
+        ("ids outside the tables, empty name, zeros", unknown_v, unknown_p, 0, 0, 0, b"\x00\x00", 0, ""),
+        ("largest values, Latin-1 name", known_v[-1], known_p[-1], 65535, 255, 255, b"\xff\xff", 0xFFFFFFFF, "Antrieb \xe9\xfc\xdf " + "x" * 40),
+        ("major revision 128, serial with leading zeros", known_v[0], known_p[-1], 1, 128, 1, b"\x01\x00", 0x12, "A"),
+        ("major revision 148", known_v[0], known_p[0], 300, 148, 7, b"\x00\x80", 0x80000000, "PLC"),
+    ]
+
+    def body(v, p, code, major, minor, status, serial, name):
+        n = name.encode("iso-8859-1")
+        return _st.pack("<HHHBB", v, p, code, major, minor) + status + _st.pack("<I", serial) + bytes([len(n)]) + n
+
+    def want(v, p, code, major, minor, status, serial, name):
+        return {"vendor": vendors.get(v, "UNKNOWN"), "product_type": ptypes.get(p, "UNKNOWN"), "product_code": code, "revision": {"major": major, "minor": minor}, "status": status, "serial": f"{serial:08x}", "product_name": name}
+
+    for ci, is_list in ((mio, False), (lio, True)):
+        for label, *f in idents:
+            raw = body(*f)
+            exp = want(*f)
+            if is_list:
+                raw = _st.pack("<HHH", 0x0C, len(raw) + 21, 1) + b"\x00\x02\xaf\x12" + bytes([10, 20, 30, 40]) + bytes(8) + raw + b"\x03"
+                exp = dict({"encap_protocol_version": 1, "ip_address": "10.20.30.40"}, **exp, state=3)
+            st = Stream(raw + b"\x99\x99")
+            kind, res = fold_method(ctx, Obj(_ci=ci, _is_class=True), "decode", [st], {}, ip_hook)
+            key = ckey(ci.key, f"witness:decode:{label}")
+            if kind == "unknown":
+                ctx.undecided(key, ci.node, f"{ci.name}.decode not foldable on {label}: {res}")
+                continue
+            ok = kind == "return" and res == exp and st.pos == len(raw)
+            diff = {k_: (res.get(k_), exp.get(k_)) for k_ in set(exp) | set(res)} if isinstance(res, dict) else res
+            diff = {k_: v_ for k_, v_ in diff.items() if v_[0] != v_[1]} if isinstance(diff, dict) else diff
+            ctx.check(ok, key, ci.node, f"{ci.name}: {label}: every field as encoded, {len(raw)} bytes consumed",
+                      f"{ci.name}.decode of the identity '{label}' ({raw.hex()[:80]}...): {kind}, fields that differ (got, encoded) {diff!r}, {st.pos} of {len(raw)} bytes consumed", witness=label)
+            if is_list or kind != "return" or f[0] == unknown_v:
+                continue
+            k2, enc = fold_method(ctx, Obj(_ci=ci, _is_class=True), "encode", [dict(exp, revision=dict(exp["revision"]))], {}, ip_hook)
+            key = ckey(ci.key, f"witness:encode:{label}")
+            if k2 == "unknown":
+                ctx.undecided(key, ci.node, f"{ci.name}.encode not foldable on {label}: {enc}")
+                continue
+            enc = bytes(enc) if isinstance(enc, bytearray) else enc
+            ctx.check(k2 == "return" and enc == raw, key, ci.node, f"{ci.name}: {label}: encode(decode(x)) == x", f"{ci.name}.encode of the decoded identity '{label}' gives {k2} {enc.hex() if isinstance(enc, bytes) else enc!r}; the identity was {raw.hex()}")
+
+
+rule("C16", "D16.10", "T-WITNESS", floor=12)(_identity_rule)
+rule("C06", "D6.16", "T-WITNESS", floor=12)(_identity_rule)
+
+
 # ---------------------------------------------------------------------------------------------------------------- socket framing
 def _socket_rule(ctx):
     """Socket.receive and Socket.send folded on witness TCP segmentations (the OS socket is a marker that hands out what is left of
